@@ -610,7 +610,7 @@ SET_PROPS = {'C03', 'C04', 'C11', 'C12', 'C19'}
 # ------------------------------------------------------------------------------------------------------------------
 VEC_PROPS = {'C01', 'C02', 'C05', 'C06', 'C07', 'C10'}
 
-RELEVANT_STAT = {'C03': 'ops', 'C04': 'ops', 'C11': 'iterOps', 'C12': 'hints', 'C19': 'lookups', 'C18': 'ops', 'C08': 'limitExc', 'C13': 'ops', 'C14': 'ops', 'C09': 'faults', 'C01': 'ops', 'C02': 'prims', 'C05': 'pristineOps', 'C06': 'allocEvents', 'C07': 'stable', 'C10': 'alias'}
+RELEVANT_STAT = {'C15': 'ops', 'C03': 'ops', 'C04': 'ops', 'C11': 'iterOps', 'C12': 'hints', 'C19': 'lookups', 'C18': 'ops', 'C08': 'limitExc', 'C13': 'ops', 'C14': 'ops', 'C09': 'faults', 'C01': 'ops', 'C02': 'prims', 'C05': 'pristineOps', 'C06': 'allocEvents', 'C07': 'stable', 'C10': 'alias'}
 
 
 def make_replay(prop, r, v):
@@ -674,18 +674,65 @@ def evidence_vec(prop, res, extra_notes=None):
                              'TLC 1.8 and the JSON/IOUtils community modules'])
 
 
+def suite_memalgo(tier, seed):
+    def compute(d):
+        maxn = 3 if tier == 'quick' else 4
+        md = workdir(d, 'mc_memalgo')
+        vlib.copy_specs(md)
+        with open(os.path.join(md, 'MCMemAlgo.cfg'), 'w') as f:
+            f.write('SPECIFICATION Spec\nCONSTANT MaxN = %d\nINVARIANT Sane\nCHECK_DEADLOCK FALSE\nACTION_CONSTRAINT Export\n' % maxn)
+        outp = os.path.join(md, 'export.txt')
+        rc, _, dt = vlib.tlc(md, 'MCMemAlgo', 'MCMemAlgo.cfg', workers=4, outfile=outp, timeout=900, heap='4g')
+        edges, tail = vlib.parse_export(outp)
+        counts = vlib.parse_counts(tail)
+        if rc != 0 or counts is None or 'No error has been found' not in tail:
+            raise InfraError('MODEL-ERROR: MCMemAlgo failed\n' + tail[-2000:])
+        script = os.path.join(md, 'labels.script')
+        with open(script, 'w') as f:
+            for e in edges:
+                l = e['l']
+                f.write('%s %d %s %s %s %d\n' % (l['a'], l['n'], l['sit'], l['dit'], l['cat'], l['k']))
+        cells = [('g++', s_) for s_ in ('c++11', 'c++14', 'c++17', 'c++20')]
+        if tier == 'thorough':
+            cells += [('clang++', s_) for s_ in ('c++11', 'c++14', 'c++17', 'c++20')]
+
+        def one(cell):
+            comp, std = cell
+            name = 'mem_%s_%s' % (comp.replace('+', 'p'), std.replace('+', 'p'))
+            binary = os.path.join(workdir(d, 'bin'), name)
+            vlib.build(os.path.join(vlib.HARNESS, 'mem_main.cpp'), binary, [], std=std, compiler=comp)
+            trace = os.path.join(workdir(d, 'traces'), name + '.ndjson')
+            rc2, out, dt2 = vlib.run([binary, script, trace, name], timeout=600)
+            if rc2 != 0:
+                # a crash of the implementation inside an algorithm: report as a violation of the in-flight label
+                return dict(config=name, tag='labels', trace=trace, lines=0, viol=[dict(p='C15', l=1, why='harness crashed (rc=%d): %s' % (rc2, out[-200:]))],
+                            stats={}, is_ref=False, kind='memalgo', wall=0, run_wall=dt2, script=script)
+            vd = workdir(d, 'val_' + name)
+            vlib.copy_specs(vd)
+            r = vlib.validate(vd, 'TraceMemAlgo', 'TraceMemAlgo.cfg', trace, heap='3g')
+            r.update(config=name, tag='labels', trace=trace, run_wall=dt2, script=script, is_ref=False, kind='memalgo')
+            r['stats']['execs'] = r['stats'].get('ops', 0)
+            return r
+        rs = pmap(one, cells, workers=8)
+        for r in rs:
+            r['mc'] = dict(states=counts[1], transitions=len(edges), model=dict(module='MemAlgo', MaxN=maxn), params=dict(MaxN=maxn),
+                           ops={}, sample_walk=[e['l'] for e in edges[:6]])
+        return dict(results=rs)
+    return cached_suite('memalgo', tier, seed, compute)
+
+
 SUITE_FN = {}
 PROP_SUITES = {
     'C01': ['vec'], 'C02': ['vec', 'swap2', 'fault', 'sets', 'setfault'], 'C03': ['sets'], 'C04': ['sets'], 'C05': ['vec', 'sets'],
     'C06': ['vec', 'swap2', 'fault', 'sets', 'setfault'], 'C07': ['vec'], 'C08': ['limit'], 'C09': ['fault', 'setfault'],
     'C10': ['vec'], 'C11': ['sets'], 'C12': ['sets'], 'C13': ['swap2'], 'C14': ['vec', 'swap2', 'sets'], 'C18': ['vec', 'growth'],
-    'C19': ['sets', 'bigsets'],
+    'C19': ['sets', 'bigsets'], 'C15': ['memalgo'],
 }
 
 
 def run_property(prop, tier, seed):
     SUITE_FN.update(vec=suite_vec, swap2=suite_swap2, fault=suite_fault, limit=suite_limit, growth=suite_growth, sets=suite_sets,
-                    setfault=suite_setfault, bigsets=suite_bigsets)
+                    setfault=suite_setfault, bigsets=suite_bigsets, memalgo=suite_memalgo)
     if prop not in PROP_SUITES:
         raise InfraError('no check for property %s' % prop)
     results, wall, cached, extra = [], 0.0, True, {}
